@@ -901,7 +901,10 @@ impl<'a> ArxmlParser<'a> {
                     let mut valid = false;
                     if let Some(endpos) = rem.find(';') {
                         let hextxt = &rem[3..endpos];
-                        if let Ok(hexval) = u32::from_str_radix(hextxt, 16) {
+                        // only digits are allowed; from_str_radix would also accept a sign
+                        if hextxt.bytes().all(|c| c.is_ascii_hexdigit())
+                            && let Ok(hexval) = u32::from_str_radix(hextxt, 16)
+                        {
                             if let Some(ch) = char::from_u32(hexval) {
                                 unescaped.push(ch);
                                 rem = &rem[endpos + 1..];
@@ -921,7 +924,10 @@ impl<'a> ArxmlParser<'a> {
                     let mut valid = false;
                     if let Some(endpos) = rem.find(';') {
                         let numtxt = &rem[2..endpos];
-                        if let Ok(val) = u32::from_str(numtxt) {
+                        // only digits are allowed; from_str would also accept a sign
+                        if numtxt.bytes().all(|c| c.is_ascii_digit())
+                            && let Ok(val) = u32::from_str(numtxt)
+                        {
                             if let Some(ch) = char::from_u32(val) {
                                 unescaped.push(ch);
                                 rem = &rem[endpos + 1..];
